@@ -261,32 +261,35 @@ example : trace exWrongPhase =
      .rpass .AfterChooseHost 0 [],
      .up false, .spass 0 [], .dh (some 200) false, .dd true] := by decide +kernel
 
-/-- **negation witness of the unrestricted single_reply** (finding): a filter that asks nine times for re-match and
-then answers 403 is invoked ten times; the tenth call of `receive` returns `UpFilter` to a task loop that has run out of
-iterations: the stream is answered by nobody and never cleaned. -/
+/-- **the repaired defect** (finding → `fixed:`): a filter that asks nine times for re-match and then answers 403 is invoked
+ten times; the tenth call of `receive` returns `UpFilter` to a task loop that has run out of iterations.  Before the repair
+the task returned there (stream answered by nobody, never cleaned); now the finishing pass sends the 403. -/
 def exExhaust : Cfg :=
   { recv := [⟨.AfterRoute, List.replicate 9 ⟨.none, .ReMatchRoute⟩ ++ [⟨.hijack 403 false, .Stop⟩]⟩],
     send := [⟨[]⟩], env := envOK }
 
-example : (final exExhaust).exhausted = true ∧ (final exExhaust).cleaned = false ∧
-    backPart (trace exExhaust) = [] ∧ (recvVerdicts (trace exExhaust)).length = 10 ∧
-    (⟨.hijack 403 false, .Stop⟩ : Verdict) ∈ recvVerdicts (trace exExhaust) := by decide +kernel
+example : (final exExhaust).exhausted = false ∧ (final exExhaust).cleaned = true ∧
+    backPart (trace exExhaust) = [.spass 0 [(0, .Continue)], .dh (some 403) true] ∧
+    (recvVerdicts (trace exExhaust)).length = 10 := by decide +kernel
 
-example : ¬ (∀ c : Cfg, answeredIn (trace c) → ¬ terminatedIn (trace c) → c.env.oneway = false →
-    ∃ r code, backPart (trace c) = .spass 0 (sendRun c.send 0) :: replyEvs r code) := by
-  intro h
-  have hb : backPart (trace exExhaust) = [] := by decide +kernel
-  have ha : answeredIn (trace exExhaust) :=
-    ⟨⟨.hijack 403 false, .Stop⟩, by decide +kernel, rfl⟩
-  have hrv : recvVerdicts (trace exExhaust) = List.replicate 9 ⟨.none, .ReMatchRoute⟩ ++ [⟨.hijack 403 false, .Stop⟩] := by
-    decide +kernel
-  have hsp : ∀ e ∈ trace exExhaust, isSpass e = false := by decide +kernel
-  have hnt : ¬ terminatedIn (trace exExhaust) := by
-    rintro (⟨v, hv, ht⟩ | ⟨st, invs, hm, _⟩)
-    · rw [hrv] at hv; simp at hv; rcases hv with ⟨_, rfl⟩ | rfl <;> cases ht
-    · have := hsp _ hm; cases this
-  obtain ⟨r, code, hx⟩ := h exExhaust ha hnt rfl
-  rw [hb] at hx; cases hx
+/-- a filter that asks for re-match for ever: ten passes, then the internal-error reply (500) — after the sender filters,
+nothing sent upstream, stream cleaned; the same for re-choose-host, and for a one-way request (cleaned, no reply) -/
+def exForever : Cfg :=
+  { recv := [⟨.AfterRoute, List.replicate 40 ⟨.none, .ReMatchRoute⟩⟩], send := [⟨[]⟩], env := envOK }
+
+example : (final exForever).exhausted = false ∧ (final exForever).cleaned = true ∧
+    backPart (trace exForever) = [.spass 0 [(0, .Continue)], .dh (some 500) true] ∧
+    (recvVerdicts (trace exForever)).length = 10 ∧ (∀ e ∈ trace exForever, isUp e = false) := by decide +kernel
+
+example : (final { exForever with recv := [⟨.AfterChooseHost, List.replicate 40 ⟨.none, .ReChooseHost⟩⟩] }).cleaned = true ∧
+    backPart (trace { exForever with recv := [⟨.AfterChooseHost, List.replicate 40 ⟨.none, .ReChooseHost⟩⟩] }) =
+      [.spass 0 [(0, .Continue)], .dh (some 500) true] ∧
+    (final { exForever with env := { envOK with oneway := true } }).cleaned = true ∧
+    backPart (trace { exForever with env := { envOK with oneway := true } }) = [] := by decide +kernel
+
+/-- … on a route whose retry policy makes every 5xx retriable the internal-error reply is not retried either -/
+example : (final { exForever with env := envRetry }).retried = false ∧ (final { exForever with env := envRetry }).cleaned = true ∧
+    backPart (trace { exForever with env := envRetry }) = [.spass 0 [(0, .Continue)], .dh (some 500) true] := by decide +kernel
 
 /-! ## many streams: filter INSTANCES and configuration UPDATES (`Model/FilterInst.lean`)
 
